@@ -43,25 +43,36 @@ def records_hook_tuple(model, f, node, g, seen=None):
     return False
 
 
+SCAN_KINDS = {'int': dict(internal=True, recall=False, hook=True), 'rec': dict(internal=False, recall=True, hook=False),
+              'hook': dict(internal=False, recall=False, hook=True), 'ext': dict(internal=False, recall=False, hook=False)}
+
+
+def scan_eval(hs, seq):
+    from sa import pureeval
+    tuples = [pureeval.Obj(signal='S%d' % i, datetime=i, **SCAN_KINDS[kd]) for i, kd in enumerate(seq)]
+    return pureeval.call(hs.node, [pureeval.Obj(rtc=pureeval.Obj(tuples=tuples))])
+
+
+def hook_flag_index(hs):
+    """(k, arity): the position in the scan helper's result tuple that tells "a hook answered": the one that is True for a step whose only tuple is an external
+    hook and False for a step whose only tuple is an external non-hook (found by evaluating the pure helper, whatever its shape)"""
+    a, b = scan_eval(hs, ['hook']), scan_eval(hs, ['ext'])
+    if not (isinstance(a, tuple) and isinstance(b, tuple) and len(a) == len(b)):
+        return None, 0
+    ks = [i for i in range(len(a)) if a[i] is True and b[i] is False]
+    return (ks[0] if len(ks) == 1 else None), len(a)
+
+
 def hooked_var(fac, inner):
     """name of the local of the trace wrapper that receives the scan helper's "a hook answered" flag"""
     helpers = [h for h in fac.nested.values() if h is not inner]
     if len(helpers) != 1:
         return None
     hs = helpers[0]
-    rets = [n for n in walk_shallow(hs.node) if isinstance(n, ast.Return) and isinstance(n.value, ast.Tuple)]
-    if len(rets) != 1:
+    k, arity = hook_flag_index(hs)
+    if k is None:
         return None
-    names = [e.id if isinstance(e, ast.Name) else None for e in rets[0].value.elts]
-    flag = None
-    for n in walk_shallow(hs.node):
-        if isinstance(n, ast.If) and '.hook' in norm(n.test):
-            for st in n.body:
-                if isinstance(st, ast.Assign) and isinstance(st.targets[0], ast.Name) and isinstance(st.value, ast.Constant) and st.value.value is True:
-                    flag = st.targets[0].id
-    if flag is None or flag not in names:
-        return None
-    k = names.index(flag)
+    names = [None] * arity
     for n in walk_shallow(inner.node):
         if isinstance(n, ast.Assign) and isinstance(n.targets[0], ast.Tuple) and isinstance(n.value, ast.Call) and isinstance(n.value.func, ast.Name) and n.value.func.id == hs.name \
                 and len(n.targets[0].elts) == len(names) and isinstance(n.targets[0].elts[k], ast.Name):
@@ -162,24 +173,15 @@ def check(run, model, tier):
             # {internal, recall marker, external answered by a hook, external not a hook}: "hooked" must be exactly "some external tuple is a hook"
             import itertools
             from sa import pureeval
-            kinds = {'int': dict(internal=True, recall=False, hook=True), 'rec': dict(internal=False, recall=True, hook=False),
-                     'hook': dict(internal=False, recall=False, hook=True), 'ext': dict(internal=False, recall=False, hook=False)}
-            rets_h = [x for x in walk_shallow(hs.node) if isinstance(x, ast.Return) and isinstance(x.value, ast.Tuple)]
-            names_h = [e.id if isinstance(e, ast.Name) else None for e in rets_h[0].value.elts] if len(rets_h) == 1 else []
-            flag = None
-            for x in walk_shallow(hs.node):
-                if isinstance(x, ast.Assign) and isinstance(x.targets[0], ast.Name) and isinstance(x.value, ast.Constant) and x.value.value is True and x.targets[0].id in names_h:
-                    flag = x.targets[0].id
-            if flag is None:
-                raise AnalysisError('append_to_full_trace: the hook-scan helper does not return a flag it sets to True')
-            k = names_h.index(flag)
+            kinds = SCAN_KINDS
+            k, _arity = hook_flag_index(hs)
+            if k is None:
+                raise AnalysisError('append_to_full_trace: the hook-scan helper does not return a tuple with one "a hook answered" flag')
             mism = None
             n_seq = 0
             for ln in range(0, 5):
                 for seq in itertools.product(sorted(kinds), repeat=ln):
-                    tuples = [pureeval.Obj(signal='S%d' % i, datetime=i, **kinds[kd]) for i, kd in enumerate(seq)]
-                    me = pureeval.Obj(rtc=pureeval.Obj(tuples=tuples))
-                    got = pureeval.call(hs.node, [me])
+                    got = scan_eval(hs, seq)
                     want = any(kd == 'hook' for kd in seq)
                     n_seq += 1
                     if bool(got[k]) != want and mism is None:
